@@ -179,7 +179,11 @@ func RunC10(run *vk.Run) {
 				return
 			}
 			if err := Usable(ref, roots, at); err != nil {
-				run.Infra(fmt.Errorf("fault-free reference rotation leaves %v unusable: %v", combo, err))
+				// real-code behaviour, not an infrastructure problem: after a rotation that reported success
+				// the recorded primary cannot endorse
+				run.Violation("successful-rotation-unusable", fmt.Sprintf("after a fault-free rotation (%d earlier rotations) that reported success on %v the recorded primary is not usable: %v", nrot, combo, err),
+					map[string]any{"combo": combo.String(), "prior_rotations": nrot})
+				ref.Close()
 				return
 			}
 			ref.Close()
@@ -256,6 +260,34 @@ func RunC10(run *vk.Run) {
 				} else {
 					evs = append(evs, Event{"Endorse", "", "ok"})
 				}
+				// the operator's first reaction: the same rotation again, without permission to overwrite. It
+				// may be refused because of the leftovers, but refused or not the recorded primary stays
+				// usable and nothing is destroyed before its successor is durably recorded (run on a copy of
+				// the state: the history below continues from the failed attempt)
+				if b, cerr := a.Clone(); cerr == nil {
+					tb := &Tap{}
+					tb.OnDestroy = func(name string) {
+						kc, err := b.Loaded()
+						if err != nil {
+							return
+						}
+						prim, perr := kc.CA.PrimarySigningKeyVersion(fxCtx())
+						if perr != nil || prim == name {
+							fs = append(fs, "destroy-before-durable")
+							run.Violation(keyOf("destroy-before-durable:rerun"), fmt.Sprintf("re-running the rotation (no --overwrite) after %s at call %d (%s) on %v: key %q is destroyed while the stored manifest still names it primary (%v)", jb.mode, jb.i, calls[jb.i-1], combo, name, perr),
+								map[string]any{"combo": combo.String(), "prior_rotations": nrot, "mode": jb.mode, "call_index": jb.i, "call": calls[jb.i-1]})
+						}
+					}
+					berr := b.Exec(tb, "rotate", "--timestamp", ts(at))
+					if uerr := Usable(b, roots, at); uerr != nil {
+						fs = append(fs, "unusable")
+						run.Violation(keyOf("primary-unusable:rerun"), fmt.Sprintf("after re-running the rotation without --overwrite (result: %v) following %s at call %d (%s) on %v: %v", berr, jb.mode, jb.i, calls[jb.i-1], combo, uerr),
+							map[string]any{"combo": combo.String(), "prior_rotations": nrot, "mode": jb.mode, "call_index": jb.i, "call": calls[jb.i-1], "rerun_error": fmt.Sprint(berr)})
+					}
+					b.Close()
+				} else {
+					run.Infra(cerr)
+				}
 				// a later fault-free rotation that may overwrite leftovers must succeed
 				t2 := &Tap{}
 				rerr := a.Exec(t2, "rotate", "--timestamp", ts(at.Add(time.Hour)), "--overwrite")
@@ -304,7 +336,7 @@ func RunC10(run *vk.Run) {
 		if fc.preds == 0 {
 			drift++
 			if drift <= 3 {
-				fmt.Printf("DRIFT property=C10 trace rejected by Trace_KeyAuthority at event %d although the predicates hold: %v %s@%d %s: %s\n", at[k], fc.combo, fc.mode, fc.at[0], fc.call, evString(fc.events))
+				fmt.Fprintf(vk.Stdout, "DRIFT property=C10 trace rejected by Trace_KeyAuthority at event %d although the predicates hold: %v %s@%d %s: %s\n", at[k], fc.combo, fc.mode, fc.at[0], fc.call, evString(fc.events))
 			}
 		}
 	}
@@ -312,7 +344,7 @@ func RunC10(run *vk.Run) {
 	run.Extra["traces_rejected_by_spec"] = len(rej)
 	run.Extra["real_traces_accepted_by_spec"] = len(traces) - len(rej)
 	run.Exhaustive = true
-	run.Rule = "for every combination of key manager and certificate authority and 0..N prior rotations: every call of the real call sequence of a rotation is made to fail, and (persistent key stores) the process is crashed after it; after each, fresh instances are loaded, the recorded primary must sign a document that verifies under the root, key destruction must not precede the durable record, and a fault-free --overwrite rotation must succeed; the recorded event logs are validated against Trace_KeyAuthority; distinct = (combo, prior rotations, mode, call index)"
+	run.Rule = "for every combination of key manager and certificate authority and 0..N prior rotations: every call of the real call sequence of a rotation is made to fail, and (persistent key stores) the process is crashed after it; after each, fresh instances are loaded, the recorded primary must sign a document that verifies under the root, key destruction must not precede the durable record, the same holds after re-running the rotation without --overwrite (refused or not), and a fault-free --overwrite rotation must succeed; the recorded event logs are validated against Trace_KeyAuthority; distinct = (combo, prior rotations, mode, call index)"
 }
 
 // fixEndorse gives Endorse events the primary-key argument the spec expects (the key named by the
